@@ -147,14 +147,15 @@ func c10LongAndLarge(r *Run) {
 		k             int
 		two           bool
 	}
-	ks := []int{1, 1000, 4095, 4096, 4097, 5000}
+	// around every power of two a bounded table is likely to be sized by, not only 4096
+	ks := []int{1, 1000, 4095, 4096, 4097, 5000, 64, 65, 256, 257, 1024, 1025, 2049, 8192, 8193}
 	if !r.Quick {
-		ks = append(ks, 8191, 8192, 8193, 20000, 65000)
+		ks = append(ks, 63, 255, 1023, 2048, 8191, 16384, 16385, 20000, 32768, 32769, 65000)
 	}
 	var longs []long
 	for i, k := range ks {
 		longs = append(longs, long{2, []int{1}, []int{2}, k, false})
-		if i%2 == 1 || !r.Quick {
+		if (i%2 == 1 && i < 6) || !r.Quick {
 			longs = append(longs, long{3, []int{3, 1}, []int{2}, k, false}, long{2, []int{2}, []int{1}, k / 2, true})
 		}
 	}
@@ -224,6 +225,10 @@ func c10LongAndLarge(r *Run) {
 			judgeIt(table, hist, obs, in)
 			if obs.PanicAt >= 0 {
 				continue
+			}
+			edge := n <= 16 || n >= 253 || (n%64 >= 63 || n%64 <= 1)
+			if r.Quick && (oi != (n+int(r.Seed))%4 || !(edge || n%3 == int(r.Seed)%3)) {
+				continue // quick tier: all orders of every N are judged by the oracle; model cases: one order (rotating) for a third of the totals and for those next to 0, 64, 128, 192, 255
 			}
 			r.Case(fmt.Sprintf("large-total N=%d order#%d", n, oi),
 				fmt.Sprintf("chk_order %s %s %d %d %s %s", coqAddr(src), coqAddr(dst), ref, n, hexOrder(order), sparseExceptions(obs.Trace, make([]int, n))))
